@@ -19,7 +19,7 @@
 namespace Psutil.C16
 
 /-- per-process sources (files under /proc/<pid>/) -/
-inductive Src | stat | status | smaps | statm | cmdline | io
+inductive Src | stat | status | smaps | statm | cmdline | io | rollup
   deriving DecidableEq, Repr
 
 /-- the front-end methods that carry `@memoize_when_activated` -/
@@ -44,8 +44,11 @@ structure World where
   ver : Src → Nat
   denied : Src → Bool       -- open() fails with EACCES for this file
   st : PState
+  absent : Src → Bool := fun _ => false
+                            -- the file does not exist although the process does (open() fails with ENOENT): only
+                            -- `smaps_rollup` (kernels before 4.14 / the "weird" PIDs of `_parse_smaps_rollup`'s comment)
 
-def World.init : World := ⟨fun _ => 1, fun _ => false, .alive⟩
+def World.init : World := ⟨fun _ => 1, fun _ => false, .alive, fun _ => false⟩
 
 /-- files that exist but are empty for a zombie (measured on the sandbox kernel, DESIGN A.8) -/
 def emptiesOnZombie : Src → Bool
@@ -70,7 +73,18 @@ structure Meth where
   goneCheck : Bool        -- … and that guard raises NoSuchProcess once is_running() has seen the process gone
   srcs : List Src         -- reads of the platform method, in order
   zprobe : Bool           -- `if not data: self._raise_if_zombie()`
-  deriving Repr
+  alt : Option Src := none
+                          -- `try: <read alt> except (ProcessLookupError, FileNotFoundError): <read srcs[0]>`
+                          -- (memory_full_info: smaps_rollup first, smaps as the fallback)
+  deriving DecidableEq, Repr
+
+/-- the files the platform method reads in THIS world, in order: the tried-first file replaces the head of `srcs`
+    when it can be opened; ENOENT (kernel without the file) and ESRCH (a zombie has no mm; a gone process has no
+    directory) send the method to its fallback -/
+def Meth.eff (m : Meth) (w : World) : List Src :=
+  match m.alt with
+  | some a => if w.absent a || w.st != PState.alive then m.srcs else a :: m.srcs.tail
+  | none => m.srcs
 
 /-- facts re-derived from the source by the translator -/
 structure Cfg where
@@ -140,7 +154,7 @@ def zombieProbe (st : St) (w : World) : St × Bool :=
 
 /-- the platform method -/
 def platCall (cfg : Cfg) (m : Meth) (st : St) (w : World) : St × Except Exc Val :=
-  match readAll cfg w st m.srcs with
+  match readAll cfg w st (m.eff w) with
   | (st1, .ok cs) =>
     if m.zprobe && cs.head? == some Content.empty then
       match zombieProbe st1 w with
@@ -308,6 +322,7 @@ inductive Op
   | setDenied (s : Src) (b : Bool)
   | setState (p : PState)
   | asDict (a : AsDictArg)
+  | setAbsent (s : Src) (b : Bool)   -- the kernel offers / does not offer this file (only smaps_rollup)
 
 inductive Out
   | unit
@@ -323,7 +338,8 @@ structure Sys where
 def Sys.init : Sys := ⟨St.init, World.init⟩
 
 /-- world changes. Assumptions of the world model: `stat` is always readable (mode 0444),
-    a gone process never comes back (PID reuse: C01/C02), a zombie never revives. -/
+    a gone process never comes back (PID reuse: C01/C02), a zombie never revives; the only file that may be
+    missing for a live process is smaps_rollup. -/
 def worldStep (w : World) : Op → World
   | .setVer s v => { w with ver := fun x => if x = s then v else w.ver x }
   | .setDenied s b => if s = .stat then w else { w with denied := fun x => if x = s then b else w.denied x }
@@ -332,6 +348,7 @@ def worldStep (w : World) : Op → World
     | .gone, _ => w
     | .zombie, .alive => w
     | _, p => { w with st := p }
+  | .setAbsent s b => if s = .rollup then { w with absent := fun x => if x = s then b else w.absent x } else w
   | _ => w
 
 def step (cfg : Cfg) (y : Sys) : Op → Sys × Out
